@@ -376,13 +376,13 @@ func flipBit(b []byte, i int) []byte {
 	return o
 }
 
-func variants(A, B, C *pool, seed int64, thorough bool) []variant {
+func variants(A, B, C *pool, seed int64, thorough bool, ctr uint64) []variant {
 	body := []byte(fmt.Sprintf("msg-%d", seed))
-	base := build(A, 1, 7, 0, body)
-	baseE1 := build(A, 1, 7, 1, body) // KES signature made one evolution later
-	other := build(A, 1, 7, 0, []byte("another-body"))
-	bMsg := build(B, 1, 7, 0, body)
-	cMsg := build(C, 1, 7, 0, body) // pool C is never registered
+	base := build(A, ctr, 7, 0, body)
+	baseE1 := build(A, ctr, 7, 1, body) // KES signature made one evolution later
+	other := build(A, ctr, 7, 0, []byte("another-body"))
+	bMsg := build(B, ctr, 7, 0, body)
+	cMsg := build(C, ctr, 7, 0, body) // pool C is never registered
 	var out []variant
 	add := func(name, class string, f func(m *msgData)) {
 		m := base.clone()
@@ -527,7 +527,7 @@ type stats struct {
 }
 
 func runSingles(c *vlib.Check, A, B, C *pool, pools map[string]*pool, st *stats, only string) {
-	vs := variants(A, B, C, c.Seed, c.Thorough())
+	vs := variants(A, B, C, c.Seed, c.Thorough(), 1)
 	s0, s1, sPast := uint64(7*spkp+5), uint64(8*spkp+5), uint64(6*spkp+5)
 	var cfgs []cfg
 	for _, ver := range []bool{true, false} {
@@ -627,25 +627,101 @@ func runSingles(c *vlib.Check, A, B, C *pool, pools map[string]*pool, st *stats,
 	c.Set("observation_cardano_format_opcert", fmt.Sprintf("message whose opcert cold signature is over the Cardano signable (hot key || counter BE64 || period BE64; ledger.VerifyOpCertSignature says %v): DMQ authenticator accept=%v (%s). Not a violation of the statement (over-rejection); the checks above use the CBOR-array signable the authenticator expects.", led == nil, got, errStr))
 }
 
+// runAfterAccepted: the same single-field corruptions, but presented to an authenticator that has
+// just accepted a genuine message of the same pool with counter 1 — the corrupted message carries a
+// lower (0), the same (1) and a higher (2) counter. Whatever the cache holds, every condition has
+// to be re-established for every message.
+func runAfterAccepted(c *vlib.Check, A, B, C *pool, pools map[string]*pool) {
+	cf := cfg{Verifier: true, Registered: []string{"A", "B"}}
+	prefix := build(A, 1, 7, 0, []byte(fmt.Sprintf("accepted-first-%d", c.Seed)))
+	type job struct {
+		ctr uint64
+		v   variant
+	}
+	var jobs []job
+	for _, ctr := range []uint64{0, 1, 2} {
+		for _, v := range variants(A, B, C, c.Seed, c.Thorough(), ctr) {
+			jobs = append(jobs, job{ctr, v})
+		}
+	}
+	type res struct {
+		key, what string
+		replay    any
+	}
+	results := make([]*res, len(jobs))
+	outc := make([]string, len(jobs))
+	vlib.Parallel(len(jobs), func(k int) {
+		j := jobs[k]
+		ref := newRef(cf, pools)
+		a := newImpl(cf, pools)
+		w0 := ref.verify(prefix, nil)
+		g0, e0, _ := implVerify(a, prefix, nil)
+		if !w0.accept || !g0 {
+			results[k] = &res{"after-accepted|genuine-first-message-rejected", fmt.Sprintf("prefix message: model accept=%v implementation accept=%v (%s)", w0.accept, g0, e0), nil}
+			return
+		}
+		want := ref.verify(j.v.m, nil)
+		got, errStr, pan := implVerify(a, j.v.m, nil)
+		rp := map[string]any{"kind": "after-accepted", "variant": j.v.name, "counter": j.ctr, "message": j.v.m}
+		rel := map[uint64]string{0: "lower", 1: "same", 2: "higher"}[j.ctr]
+		switch {
+		case pan != nil:
+			results[k] = &res{"after-accepted|panic|" + j.v.class, fmt.Sprint(pan), rp}
+		case !want.specified:
+			outc[k] = "unspecified"
+		case got && !want.accept:
+			results[k] = &res{fmt.Sprintf("after-accepted|accepted-unauthenticated|cond=%s|counter=%s", want.failed, rel),
+				fmt.Sprintf("after a genuine message of pool A with counter 1 was accepted, variant %s with counter %d was accepted although condition %q does not hold", j.v.name, j.ctr, want.failed), rp}
+		case !got && want.accept:
+			results[k] = &res{fmt.Sprintf("after-accepted|rejected-authentic|%s|counter=%s", j.v.class, rel),
+				fmt.Sprintf("after a genuine message with counter 1, variant %s with counter %d rejected (%s) although every stated condition holds", j.v.name, j.ctr, errStr), rp}
+		}
+		if want.specified {
+			if want.accept {
+				outc[k] = "after-accepted:accept"
+			} else {
+				outc[k] = "after-accepted:reject:" + want.failed
+			}
+		}
+		if is, ok := implState(a); ok && want.specified && got == want.accept && is != ref.state() {
+			results[k] = &res{"after-accepted|state", fmt.Sprintf("state %s, model %s after variant %s counter %d", is, ref.state(), j.v.name, j.ctr), rp}
+		}
+	})
+	for k, r := range results {
+		c.Eval(fmt.Sprintf("after-accepted|%s|counter=%d", jobs[k].v.class, jobs[k].ctr), outc[k])
+		if r != nil {
+			c.Violation(r.key, r.what, r.replay)
+		}
+	}
+	c.Set("after_accepted_cases", len(jobs))
+}
+
 // ------------------------------------------------------------------ part 2: histories
 
 type op struct {
-	Kind string `json:"kind"` // V valid msg, X msg with corrupted KES signature, U unregister, R register, D drop cache entry
+	// V genuine message; X message with corrupted KES signature (counter 2); Xc / Xp / Xk otherwise genuine
+	// message with counter N whose opcert cold signature / opcert KES period / opcert hot key is corrupted;
+	// U unregister, R register, D drop cache entry
+	Kind string `json:"kind"`
 	Pool string `json:"pool"`
 	N    uint64 `json:"counter,omitempty"`
 }
 
 func (o op) String() string {
-	if o.Kind == "V" {
-		return fmt.Sprintf("V(%s,%d)", o.Pool, o.N)
+	switch o.Kind {
+	case "V", "Xc", "Xp", "Xk":
+		return fmt.Sprintf("%s(%s,%d)", o.Kind, o.Pool, o.N)
 	}
 	return fmt.Sprintf("%s(%s)", o.Kind, o.Pool)
 }
 
+func (o op) isMessage() bool { return o.Kind == "V" || o.Kind[0] == 'X' }
+
 type world struct {
 	pools map[string]*pool
 	msgs  map[string]msgData // op string -> message
-	ops   []op
+	ops   []op               // all operations
+	core  []op               // the 14 operations of the first version (used for the longer undeduplicated histories)
 	mu    sync.Mutex
 	outc  map[string]int64 // verdicts of message operations inside histories
 }
@@ -664,6 +740,27 @@ func newWorld(pools map[string]*pool, seed int64) *world {
 		w.msgs[x.String()] = m
 		w.ops = append(w.ops, x, op{Kind: "U", Pool: pn}, op{Kind: "R", Pool: pn}, op{Kind: "D", Pool: pn})
 	}
+	w.core = append([]op{}, w.ops...)
+	// single-field corruptions of the operational certificate of an otherwise genuine message,
+	// for every counter: applied in every reachable state, i.e. also right after a genuine
+	// message with the same / a lower / a higher counter was accepted
+	for _, pn := range []string{"A", "B"} {
+		for n := uint64(0); n <= 2; n++ {
+			g := build(pools[pn], n, 7, 0, []byte(fmt.Sprintf("hist-oc-%s-%d-%d", pn, n, seed)))
+			mc, mp, mk := g.clone(), g.clone(), g.clone()
+			mc.OcSig = flipBit(mc.OcSig, 9)
+			mp.OcPeriod++
+			mk.OcVkey = flipBit(mk.OcVkey, 5)
+			for _, e := range []struct {
+				k string
+				m msgData
+			}{{"Xc", mc}, {"Xp", mp}, {"Xk", mk}} {
+				o := op{e.k, pn, n}
+				w.ops = append(w.ops, o)
+				w.msgs[o.String()] = e.m
+			}
+		}
+	}
 	return w
 }
 
@@ -680,7 +777,7 @@ func (w *world) run(c cfg, h []op, reflectOK *atomic.Bool) (string, *divergence)
 		p := w.pools[o.Pool]
 		pre := r.state()
 		switch o.Kind {
-		case "V", "X":
+		case "V", "X", "Xc", "Xp", "Xk":
 			m := w.msgs[o.String()]
 			want := r.verify(m, nil)
 			got, errStr, pan := implVerify(a, m, nil)
@@ -803,44 +900,52 @@ func runHistories(c *vlib.Check, pools map[string]*pool, only []op, onlyCfg *cfg
 		}
 	}
 	states = int64(len(seen))
-	// (b) every history of length L, no dedup (covers all shorter ones as prefixes)
-	L := 3
+	// (b) every history of length L over the 14 core operations and every history of length L2
+	// over all operations, no dedup (each covers all shorter ones as prefixes)
+	L, L2 := 3, 2
 	if c.Thorough() {
-		L = 4
+		L, L2 = 4, 3
 	}
 	var nh atomic.Int64
-	for _, cf := range inits {
-		total := 1
-		for i := 0; i < L; i++ {
-			total *= len(w.ops)
-		}
-		divs := make([]*divergence, total)
-		hs := make([][]op, total)
-		vlib.Parallel(total, func(code int) {
-			h := make([]op, L)
-			x := code
-			for i := L - 1; i >= 0; i-- {
-				h[i] = w.ops[x%len(w.ops)]
-				x /= len(w.ops)
+	for _, part := range []struct {
+		ops []op
+		l   int
+	}{{w.core, L}, {w.ops, L2}} {
+		for _, cf := range inits {
+			total := 1
+			for i := 0; i < part.l; i++ {
+				total *= len(part.ops)
 			}
-			_, d := w.run(cf, h, &reflectOK)
-			hs[code], divs[code] = h, d
-			nh.Add(1)
-		})
-		for i, d := range divs {
-			if d != nil {
-				report(cf, hs[i], d)
+			divs := make([]*divergence, total)
+			hs := make([][]op, total)
+			vlib.Parallel(total, func(code int) {
+				h := make([]op, part.l)
+				x := code
+				for i := part.l - 1; i >= 0; i-- {
+					h[i] = part.ops[x%len(part.ops)]
+					x /= len(part.ops)
+				}
+				_, d := w.run(cf, h, &reflectOK)
+				hs[code], divs[code] = h, d
+				nh.Add(1)
+			})
+			for i, d := range divs {
+				if d != nil {
+					report(cf, hs[i], d)
+				}
 			}
+			transitions += int64(total * part.l)
 		}
-		transitions += int64(total * L)
 	}
 	traces += nh.Load()
 	c.Set("states", states)
 	c.Set("transitions", transitions)
 	c.Set("traces_validated_against_impl", traces)
 	c.Set("bfs_max_shortest_history", maxDepth)
-	c.Set("history_length_without_dedup", L)
+	c.Set("history_length_without_dedup_core_operations", L)
+	c.Set("history_length_without_dedup_all_operations", L2)
 	c.Set("operations", len(w.ops))
+	c.Set("core_operations", len(w.core))
 	c.Set("private_state_compared", reflectOK.Load())
 	if !reflectOK.Load() {
 		c.Note("the authenticator's private maps could not be read by reflection; dedup relied on the model state only, behaviour was still compared on every operation")
@@ -882,6 +987,8 @@ func main() {
 		if f.Replay.Kind == "history" {
 			runHistories(c, pools, f.Replay.History, &f.Replay.Config)
 			c.Sample(f.Replay.History)
+		} else if f.Replay.Kind == "after-accepted" {
+			runAfterAccepted(c, A, B, C, pools)
 		} else {
 			runSingles(c, A, B, C, pools, st, f.Replay.Variant)
 		}
@@ -890,9 +997,10 @@ func main() {
 	}
 
 	runSingles(c, A, B, C, pools, st, "")
+	runAfterAccepted(c, A, B, C, pools)
 	runHistories(c, pools, nil, nil)
 
-	c.Set("rule", "single messages: (valid message + every single-field corruption) x every authenticator configuration, each on a fresh authenticator; class = corruption class x configuration, non-trivial = not the nil message. histories: BFS closure of the real authenticator's state graph under 14 operations (6 valid messages = 2 pools x counters 0..2, 2 messages with a corrupted KES signature, register/unregister/drop-cache-entry per pool) from 2 initial registrations, dedup on (registered set, counter cache) which is compared with the implementation's private maps after every operation, plus every history of length L without dedup; the reference authenticator runs in lockstep and every accept/reject is compared")
+	c.Set("rule", "single messages: (valid message + every single-field corruption) x every authenticator configuration, each on a fresh authenticator; class = corruption class x configuration, non-trivial = not the nil message. after-accepted: the same corruptions with counter 0/1/2 presented right after a genuine message with counter 1 was accepted. histories: BFS closure of the real authenticator's state graph under 32 operations (6 genuine messages = 2 pools x counters 0..2, 2 messages with a corrupted KES signature, register/unregister/drop-cache-entry per pool, and 18 otherwise genuine messages whose opcert cold signature / opcert KES period / opcert hot key is corrupted, 2 pools x counters 0..2) from 2 initial registrations, dedup on (registered set, counter cache) which is compared with the implementation's private maps after every operation, plus every history of length L over the 14 core operations and of length L2 over all 32 without dedup; the reference authenticator runs in lockstep and every accept/reject is compared")
 	c.Assume("ed25519 (crypto/ed25519), blake2b-256 and the repository's KES prover/verifier (kes.Sign, kes.VerifySignedKES; checked by C39) are trusted primitives")
 	c.Assume("the KES verifier injected is ledger.VerifyKesComponents; its period convention (evolution = slot/slotsPerKESPeriod - payload KES period, VerifyMessage without slot => evolution 0) is taken as given, the statement only says 'the KES signature over the payload verifies'")
 	c.Assume("the cold signature is checked over the CBOR array [hot key, counter, period] (the form this authenticator defines); Cardano-format opcerts are reported as an observation, see coverage.observation_cardano_format_opcert")
